@@ -109,14 +109,14 @@ class RoutineDelivery(Intervention):
 
         # Adjustment to get the right end point
         dt = sim.pars.dt # TODO: need to eventually replace with own timestep, but not initialized yet since super().init_pre() hasn't been called
-        adj_factor = int(1/dt) - 1 if dt < 1 else 1
+        adj_factor = int(1/dt) - 1 if dt < 1 else 0
 
         # Determine the timepoints at which the intervention will be applied
         self.start_point = sc.findfirst(yearvec, self.start_year)
         self.end_point   = sc.findfirst(yearvec, self.end_year) + adj_factor
         self.years       = sc.inclusiverange(self.start_year, self.end_year)
         self.timepoints  = sc.inclusiverange(self.start_point, self.end_point)
-        self.yearvec     = np.arange(self.start_year, self.end_year + adj_factor, dt) # TODO: integrate with self.t
+        self.yearvec     = self.start_year + dt*np.arange(len(self.timepoints)) # TODO: integrate with self.t
 
         # Get the probability input into a format compatible with timepoints
         if len(self.years) != len(self.prob):
